@@ -583,10 +583,11 @@ class SQLTranspiler(StructureVisitor, ASTTemplate):
             elif comp.role == Role.VIRAL_ATTRIBUTE:
                 if viral_expr_fn is not None:
                     cols.append(f"{viral_expr_fn(name, comp)} AS {quote_name(name)}")
-                elif output_ds is not None and name in output_ds.components:
+                elif output_ds is None or name in output_ds.components:
                     # Row-preserving op: execute the viral propagation rule over the
                     # result (aggregate rules collapse dataset-wide, enumerated map per
-                    # row); no rule = passthrough. Only when the output keeps it (issue #877).
+                    # row); no rule = passthrough. Only when the output keeps it (issue #877);
+                    # an intermediate result (no output structure) always carries it on.
                     rule = get_current_registry().rule_for(comp)
                     if rule is None:
                         cols.append(quote_name(name))
